@@ -200,6 +200,11 @@ inline void genStream(Rng& r, History& h, int ep, uint16_t dev, uint8_t stream, 
 inline void runInterleaving(Ctx& c, const History& h, const std::vector<int>& order, uint64_t& ilHash, bool& multiOpen)
 {
     ASAM::CMP::Decoder dec;
+    // a copy of the decoder taken in the middle of the history and used NEXT TO the original from then on (a snapshot that
+    // stays in use): both must deliver every message; the copy is destroyed before the end in half of the histories
+    std::unique_ptr<ASAM::CMP::Decoder> twin;
+    const size_t twinAt = order.size() >= 4 ? (mix64(order.size(), static_cast<uint64_t>(order[0]) + 7) % (order.size() - 1)) : order.size();
+    const size_t twinDies = (mix64(order.size(), 99) % 2) ? order.size() : twinAt + 1 + (order.size() - twinAt) / 2;
     RefDecoder ref;
     std::vector<size_t> pos(h.streams.size(), 0);
     std::vector<int> deliveredCount(h.msgs.size(), 0);
@@ -223,12 +228,37 @@ inline void runInterleaving(Ctx& c, const History& h, const std::vector<int>& or
             dec = other;
             c.count("decoder_copies");
         }
+        if (step == twinAt && order.size() <= 400)
+        {
+            twin = std::make_unique<ASAM::CMP::Decoder>(dec);
+            c.count("decoder_twins_used_next_to_the_original");
+        }
+        if (twin && step == twinDies)
+            twin.reset();
+        std::vector<std::shared_ptr<ASAM::CMP::Packet>> gotTwin;
+        const bool twinFirst = twin && (step % 2 == 0);
+        if (twinFirst)
+            gotTwin = decodeCopy(*twin, f.raw);
         auto got = decodeCopy(dec, f.raw);
+        if (twin && !twinFirst)
+            gotTwin = decodeCopy(*twin, f.raw);
         auto model = ref.feed(f.raw);
         ++c.evaluations;
         if (ref.open.size() >= 2)
             multiOpen = true;
         auto input = [&]() { return "history=" + describeFrames(fed, fed.size() - 1, 400); };
+        if (twin)
+        {
+            bool same = gotTwin.size() == f.completes.size();
+            for (size_t i = 0; same && i < gotTwin.size(); ++i)
+                same = gotTwin[i] && i < got.size() && got[i] && snapPacket(*gotTwin[i]) == snapPacket(*got[i]);
+            if (!same && got.size() == f.completes.size())
+            {
+                snprintf(buf, sizeof buf, "call %zu (endpoint %d): a copy of the decoder taken at call %zu and fed the same frames delivers %zu packets (or other packets), the original %zu",
+                         step, ep, twinAt, gotTwin.size(), got.size());
+                c.violation("C05:copy-of-decoder-delivers-differently", buf, input());
+            }
+        }
         if (got.size() != f.completes.size())
         {
             snprintf(buf, sizeof buf, "call %zu (endpoint %d): %zu packets delivered, %zu messages complete at this frame", step, ep, got.size(), f.completes.size());
